@@ -216,6 +216,9 @@ def run(ctx):
     from props import fringe
     fringe.nonascii_case(ctx)
     fringe.filter_iterables(ctx)
+    from props import glue
+    glue.filter_vs_match(ctx, rng)
+    glue.emptied_brackets(ctx)
     return ctx.finish(RULE)
 
 
